@@ -254,6 +254,7 @@ def gen_world(rng, opts=None):
     # deprecated alias `robotools.Worklist` (an EvoWorklist) instead of the recommended class
     wl["ctor_positional"] = rng.random() < 0.12
     wl["path_by_keyword"] = rng.random() < 0.2  # Worklist(filepath=...) instead of Worklist(path)
+    wl["debug_logging"] = rng.random() < 0.1  # the script runs with logging at DEBUG level for the library's loggers
     wl["legacy_class"] = rng.random() < 0.08
     return {"device": device, "regime": regime, "worklist": wl, "disk": disk, "labware": labs}
 
